@@ -14,6 +14,31 @@ LEDGER_NOTE = ("Trusted: TLC, JSON bridge, the harness's read-only projection th
                "methods are not generated yet.")
 
 CHECKS = {
+    "C04": (
+        "MkvsProof.tla (transcribed proof builders, verifyProof and remote-backed reader) checked by TLC against the declarative "
+        "rule MkvsProofRule.tla for all small trees, queries and single/pair mutations; every emitted (tree, query, mutation) case "
+        "replayed on the real SyncGet/SyncIterate/SyncGetPrefixes + VerifyProof + remote-backed trees; outcomes validated by TLC "
+        "(TraceProof.tla, rule only)",
+        "Exhaustive TLC check of completeness of honest proofs and soundness of every accepted mutated proof under a perfect-hash "
+        "assumption (both proof versions, siblings on/off); one real execution per honest (contents, query) and per distinct "
+        "(contents, mutated proof, kind), on no-db/badger/pathbadger trees and on remote readers with ample, tight and tiny "
+        "caches fed by a corrupting peer; an accepted proof or a remote read that answers anything but the truth is a violation.",
+        "Trusted: TLC, JSON bridge, SHA-512/256. Structural mutations (thorough: plus single-byte variants of the touched entry); "
+        "keys <= 3 bytes. One open known finding (remote reader with node cache below the path depth).",
+        "DESIGN.md R.7 C04"),
+    "C12": (
+        "Checkpoint.tla (both chunkers; restore machine with multipart state of both backends, aborts, crashes at H1 points, "
+        "one in-flight caller) checked by TLC against the declarative rule with named excuses, each shown necessary by a "
+        "counterexample run; one scenario per distinct (abstract state, last operation) replayed on real checkpoint creation / "
+        "restorer / NodeDB multipart insert; rule verdicts by TLC on recorded outcomes (TraceCheckpoint.tla)",
+        "Exhaustive TLC check that chunk lists cover the tree and every chunk is a root-anchored proof for all small trees, chunk "
+        "sizes and thread counts, and of the restore machine for all schedules in the bound; the real code creates each checkpoint "
+        "(twice and on the other backend), restores it under permutations, duplicates, concurrent and gated callers, corrupted "
+        "chunks, AbortRestore/AbortMultipartInsert and child-process deaths at every multipart hook point, then reads everything "
+        "back; TLC evaluates only the rule on what was observed; seeded trees up to thousands of keys.",
+        "Trusted: TLC, JSON bridge, hook H1. Process death, not power loss. Ten open known findings, each matched by (backend, "
+        "clause, history shape); any other broken clause alarms.",
+        "DESIGN.md R.7 C12"),
     "C16": (
         "MkvsWire.tla (transcribed storage decoders as a byte-level parser) generates every small encoding with every single "
         "structural mutation; cases and seeded mutation neighbourhoods are fed to the real decoders/verifiers under panic, "
